@@ -428,6 +428,27 @@ def timezone_text(tzid):
 # CardDAV (RFC 6352 10.5)
 
 
+CARD_LIST_PROPS = {"ORG", "CATEGORIES"}
+
+
+def _split_unescaped(value, sep):
+    out, cur, i = [], "", 0
+    while i < len(value):
+        ch = value[i]
+        if ch == "\\" and i + 1 < len(value):
+            cur += value[i : i + 2]
+            i += 2
+            continue
+        if ch == sep:
+            out.append(cur)
+            cur = ""
+        else:
+            cur += ch
+        i += 1
+    out.append(cur)
+    return out
+
+
 def card_prop_filter_matches(pf, card):
     props = card.get(pf["name"])
     if pf.get("is_not_defined"):
@@ -439,8 +460,25 @@ def card_prop_filter_matches(pf, card):
     if not tms and not pars:
         return True
 
+    def tm_checks(p):
+        if p.name not in CARD_LIST_PROPS:
+            return [text_matches(tm, icalref.unescape_text(p.value), "contains") for tm in tms]
+        # list-valued / structured properties: RFC 6352 does not say whether the text is the whole value or
+        # each component; asserted only where every reading gives the same verdict
+        readings = [[icalref.unescape_text(p.value)]]
+        for sep in ";,":
+            parts = [icalref.unescape_text(x) for x in _split_unescaped(p.value, sep)]
+            readings.append(parts)
+            if len(parts) > 1 and parts[-1] == "":
+                readings.append(parts[:-1])  # a trailing separator may or may not open another (empty) component
+        out = []
+        for tm in tms:
+            verdicts = {_or(text_matches(tm, v, "contains") for v in vals) for vals in readings}
+            out.append(verdicts.pop() if len(verdicts) == 1 else None)
+        return out
+
     def inst(p):
-        checks = [text_matches(tm, icalref.unescape_text(p.value), "contains") for tm in tms]
+        checks = tm_checks(p)
         for par in pars:
             vals = p.param(par["name"])
             if par.get("is_not_defined"):
